@@ -548,6 +548,19 @@ Proof.
   apply andb_true_iff in Ef. destruct Ef as [E1 E2]. apply String.eqb_eq in E1. rewrite <- E1. apply Hr; assumption.
 Qed.
 
+(* a hook hands every primitive back unchanged iff its leaf at the two primitive shapes is the value itself — whatever the
+   conditions look like (used by C13 for open enumerations) *)
+Definition prim_passthrough_b (h : hook) : bool := leaf_is (sleaf h ShPrimNS) is_self && leaf_is (sleaf h ShStr) is_self_or_str.
+Theorem prim_passthrough_sound rec h j : prim_passthrough_b h = true -> is_prim j = true -> hrun py_str rec h j = Ok (embed j).
+Proof.
+  unfold prim_passthrough_b, leaf_is. intros H J. apply andb_true_iff in H. destruct H as [H1 H2].
+  destruct j as [|b|z|fn fd|s|l|mo]; try discriminate.
+  - destruct (sleaf h ShPrimNS) as [r|] eqn:L; [|discriminate]. rewrite (sleaf_sound _ h (JBool b) r L). apply (self_result _ r _ H1).
+  - destruct (sleaf h ShPrimNS) as [r|] eqn:L; [|discriminate]. rewrite (sleaf_sound _ h (JInt z) r L). apply (self_result _ r _ H1).
+  - destruct (sleaf h ShPrimNS) as [r|] eqn:L; [|discriminate]. rewrite (sleaf_sound _ h (JFlt fn fd) r L). apply (self_result _ r _ H1).
+  - destruct (sleaf h ShStr) as [r|] eqn:L; [|discriminate]. rewrite (sleaf_sound _ h (JStr s) r L). apply (self_or_str_result _ r _ H2).
+Qed.
+
 Theorem hook_ok_sound ms h : hook_ok Sg NL GC GU ms h = true -> HookOK Sg py_str NL GC GU ms h.
 Proof.
   unfold hook_ok, HookOK. intros H j V SUB A. apply andb_true_iff in H. destruct H as [_ HM]. rewrite forallb_forall in HM.
